@@ -9,10 +9,15 @@ ASSUME TLCSet(1, {}) /\ TLCSet(2, [i \in DOMAIN Traces |-> 0])
 Tol == 15
 Close(obs10, exp) == IF exp = 0 THEN obs10 = -1 ELSE obs10 # -1 /\ obs10 >= exp * 10 - Tol /\ obs10 <= exp * 10 + Tol
 ScOf(f) == [mode |-> [e \in Ends |-> IF e = "A" THEN f.modeA ELSE f.modeB], hole |-> f.hole, data |-> f.data]
-StepOK(e) == LET c == ScOf(e.frame) o == Outcome(c) IN
+\* The path goes dark half a tick after the events of tick c.hole.  When frames are sent in that very tick (pings and data go
+\* out at even ticks) the two are 50 ms apart in real time: on a loaded machine the frames may lose that race, which is
+\* the scenario with the path dark one tick earlier.  Both orders are behaviours of the specification.
+Matches(e, o) == Close(e.stopA10, o["A"]) /\ Close(e.stopB10, o["B"])
+StepOK(e) == LET c == ScOf(e.frame) IN
              /\ c \in Scenarios
              /\ e.ok = TRUE
-             /\ Close(e.stopA10, o["A"]) /\ Close(e.stopB10, o["B"])
+             /\ IF Matches(e, Outcome(c)) THEN TRUE
+                ELSE c.hole > 0 /\ c.hole % 2 = 0 /\ Matches(e, Outcome([c EXCEPT !.hole = c.hole - 1]))
 TInit == sc \in Scenarios /\ S = S0 /\ tr \in DOMAIN Traces /\ l = 1
 TNext == /\ l <= Len(Traces[tr].ev) /\ StepOK(Traces[tr].ev[l])
          /\ l' = l + 1 /\ UNCHANGED <<tr, sc, S>>
